@@ -2,7 +2,8 @@
 From Coq Require Import String List Bool.
 From Gokrb5.lib Require Import Bytes JV.
 From Gokrb5.model Require Import LockModel ClientSM Hosts.
-From Gokrb5.proofs Require Import LockProofs LockOrderProofs ClientSMProofs HostsProofs.
+From Gokrb5.model Require Import LockOrder.
+From Gokrb5.proofs Require Import LockProofs LockOrderProofs LockOrderSound ClientSMProofs HostsProofs.
 
 (* Soundness of the lockset checker that is run on the access model generated from /repo's source on every run
    (coq/gen/Access.v, coq/conform/ConfAccess.v): under the mutual-exclusion semantics of sync.RWMutex two
@@ -49,3 +50,17 @@ Theorem C11_ordered_no_reentry : forall (lock : Type) (rank : lock -> nat) (t : 
   ordered lock rank t -> waiting lock t = Some w -> ~ In w (held lock t).
 Proof. exact ordered_no_reentry. Qed.
 Print Assumptions C11_ordered_no_reentry.
+
+(* Soundness of the lock-order checker run on the lock events generated from /repo's source (coq/gen/LockEvents.v,
+   coq/conform/ConfLockOrder.v): when it accepts, every lock acquired while another is held ALONG ANY CHAIN OF CALLS
+   is ranked strictly above it, and no blocking channel operation is reached under a lock. *)
+Theorem C11_lock_order_check_sound : forall ranks evs,
+  lock_order_sound_check ranks evs = true ->
+  forall h l, nested evs h l ->
+  exists rh rl, rank_of ranks h = Some rh /\ rank_of ranks l = Some rl /\ (rh < rl)%nat.
+Proof. exact lock_order_check_sound. Qed.
+Print Assumptions C11_lock_order_check_sound.
+
+Theorem C11_no_block_check_sound : forall evs, no_block_sound_check evs = true -> ~ blocks_under_lock evs.
+Proof. exact no_block_check_sound. Qed.
+Print Assumptions C11_no_block_check_sound.
